@@ -51,18 +51,26 @@ impl<'a> Parser<'a> {
     spec fn expr_frame(&self, o: &Self) -> bool {
         &&& self.input == o.input && self.signals == o.signals && self.virtual_signals == o.virtual_signals
         &&& self.expected_inputs == o.expected_inputs && self.vars == o.vars
+        &&& self.tables_grow(o)
         &&& self.iter.all() == o.iter.all() && self.iter.pos() >= o.iter.pos()
         &&& self.line == o.line && self.line_base() == o.line_base()
     }
     /// what parsing a data row leaves alone: everything but the token position and the recorded reads / C columns
     spec fn row_frame(&self, o: &Self) -> bool {
         &&& self.input == o.input && self.signals == o.signals && self.virtual_signals == o.virtual_signals && self.vars == o.vars
+        &&& self.tables_grow(o)
         &&& self.iter.all() == o.iter.all() && self.iter.pos() >= o.iter.pos()
         &&& self.line == o.line && self.line_base() == o.line_base()
     }
-    /// every recorded declaration carries a location inside the text
+    /// every recorded declaration carries a location inside the text and a well-formed expression
     spec fn vs_spans_valid(&self) -> bool {
-        forall|k: &str| #[trigger] self.virtual_signals@.contains_key(k) ==> valid_span(self.input, self.virtual_signals@[k].0)
+        forall|k: &str| #[trigger] self.virtual_signals@.contains_key(k) ==> valid_span(self.input, self.virtual_signals@[k].0) && expr_wf(self.virtual_signals@[k].1)
+    }
+    /// names recorded so far stay recorded
+    spec fn tables_grow(&self, o: &Self) -> bool {
+        &&& forall|k: &str| o.expected_inputs@.contains_key(k) ==> #[trigger] self.expected_inputs@.contains_key(k)
+        &&& forall|k: &str| o.expected_outputs@.contains_key(k) ==> #[trigger] self.expected_outputs@.contains_key(k)
+        &&& forall|k: &str| o.virtual_signals@.contains_key(k) ==> #[trigger] self.virtual_signals@.contains_key(k)
     }
     /// statement-level invariant
     spec fn sinv(&self) -> bool { self.pinv() && self.vs_spans_valid() }
@@ -73,6 +81,52 @@ impl<'a> Parser<'a> {
         &&& self.vs_spans_valid()
         &&& self.iter.all() == o.iter.all() && self.iter.pos() >= o.iter.pos()
         &&& self.line_base() == o.line_base()
+        &&& self.tables_grow(o)
+    }
+}
+
+/// some key of the map has these contents
+spec fn has_name<V>(m: Map<&str, V>, s: Seq<char>) -> bool { m.contains_key(str_of(s)) }
+/// C11: column c carries a header name that is recorded as holding a `C`
+spec fn rec_pred<V>(m: Map<&str, V>, hdr: Seq<String>) -> spec_fn(int) -> bool {
+    |c: int| 0 <= c < hdr.len() && has_name(m, hdr[c]@)
+}
+proof fn lemma_rec_pred_mono<V>(m1: Map<&str, V>, m2: Map<&str, V>, hdr: Seq<String>)
+    requires forall|k: &str| m1.contains_key(k) ==> #[trigger] m2.contains_key(k)
+    ensures forall|c: int| 0 <= c < hdr.len() && rec_pred(m1, hdr)(c) ==> #[trigger] rec_pred(m2, hdr)(c)
+{
+}
+/// the C entries of the row so far stand in recorded columns
+spec fn c_recorded<V>(data: Seq<DataEntry>, m: Map<&str, V>, hdr: Seq<String>) -> bool {
+    forall|i: int| 0 <= i < data.len() && (#[trigger] data[i]) == DataEntry::C && data_width(data.take(i)) < hdr.len()
+        ==> has_name(m, hdr[data_width(data.take(i))]@)
+}
+proof fn lemma_c_recorded_push<V>(data: Seq<DataEntry>, x: DataEntry, m1: Map<&str, V>, m2: Map<&str, V>, hdr: Seq<String>)
+    requires
+        c_recorded(data, m1, hdr),
+        forall|k: &str| m1.contains_key(k) ==> #[trigger] m2.contains_key(k),
+        x == DataEntry::C && data_width(data) < hdr.len() ==> has_name(m2, hdr[data_width(data)]@),
+    ensures c_recorded(data.push(x), m2, hdr)
+{
+    let d2 = data.push(x);
+    assert forall|i: int| 0 <= i < d2.len() && (#[trigger] d2[i]) == DataEntry::C && data_width(d2.take(i)) < hdr.len()
+        implies has_name(m2, hdr[data_width(d2.take(i))]@) by {
+        if i < data.len() {
+            assert(d2.take(i) =~= data.take(i));
+            assert(d2[i] == data[i]);
+        } else {
+            assert(d2.take(i) =~= data);
+        }
+    }
+}
+proof fn lemma_c_recorded_shape<V>(data: Seq<DataEntry>, m: Map<&str, V>, hdr: Seq<String>)
+    requires c_recorded(data, m, hdr), data_width(data) == hdr.len()
+    ensures data_shape(data, hdr.len() as int, rec_pred(m, hdr))
+{
+    assert forall|i: int| 0 <= i < data.len() && (#[trigger] data[i]) == DataEntry::C implies rec_pred(m, hdr)(data_width(data.take(i))) by {
+        lemma_data_width_take(data, i);
+        lemma_data_width_take(data, i + 1);
+        lemma_data_width_nonneg(data.take(i));
     }
 }
 
@@ -162,12 +216,14 @@ proof fn lemma_data_width_push(data: Seq<DataEntry>, x: DataEntry)
     assert(data.push(x).drop_last() =~= data);
 }
 
-// [A-std] &str obeys the hash-table key model, and two &str with the same contents are the same key
+// [A-std] &str obeys the hash-table key model, and a &str is identified with its contents (str_of names the &str with given contents)
+uninterp spec fn str_of(s: Seq<char>) -> &'static str;
 #[verifier::external_body]
 proof fn axiom_str_key_model()
     ensures
         vstd::std_specs::hash::obeys_key_model::<&str>(),
-        forall|a: &str, b: &str| #![trigger a@, b@] a@ == b@ ==> a == b,
+        forall|k: &str| #[trigger] str_of(k@) == k,
+        forall|s: Seq<char>| (#[trigger] str_of(s))@ == s,
 {
 }
 
